@@ -303,7 +303,8 @@ def write_replay(pid, payload):
 
 
 def write_evidence(pid, tier, seed, coverage, assumptions, wall, violations):
-    os.makedirs(os.path.join(VERIF, "evidence"), exist_ok=True)
+    evdir = os.environ.get("VERIF_EVIDENCE_DIR") or os.path.join(VERIF, "evidence")   # seed trials redirect it
+    os.makedirs(evdir, exist_ok=True)
     ev = {
         "property_id": pid,
         "tier": tier,
@@ -314,7 +315,7 @@ def write_evidence(pid, tier, seed, coverage, assumptions, wall, violations):
         "wall_s": round(wall, 2),
         "violations": int(violations),
     }
-    with open(os.path.join(VERIF, "evidence", "%s.json" % pid), "w") as f:
+    with open(os.path.join(evdir, "%s.json" % pid), "w") as f:
         json.dump(ev, f, indent=1, default=str)
 
 
